@@ -1,6 +1,9 @@
 package main
 
 import (
+	"encoding/json"
+	"fmt"
+	"go/types"
 	"strings"
 )
 
@@ -100,3 +103,259 @@ func registerABI(e *Engine) {
 		return tuple{pack(fr, sigOf(fr, arguments), vals), nilErr()}
 	})
 }
+
+// ---- abi.JSON / ABI.Pack -------------------------------------------------------
+//
+// abi.JSON on a concrete JSON document is parsed natively; the resulting
+// abi.ABI value carries methods, events and errors with their argument type
+// strings. ABI.Pack(name, args...) yields selector ++ injective blob of the
+// arguments (arity checked against the parsed definition; conformance of Go
+// argument types to the ABI types is not modelled — the repo's own tests pin
+// it). Arguments.Unpack of canonical input is the inverse of Pack: it returns
+// one opaque value wrapping the bytes, and packing that value gives the bytes
+// back.
+
+type abiRaw struct{ cells []value }
+
+type abiJSONArg struct {
+	Name         string
+	Type         string
+	InternalType string
+	Components   []abiJSONArg
+	Indexed      bool
+}
+
+type abiJSONField struct {
+	Type            string
+	Name            string
+	Inputs          []abiJSONArg
+	Outputs         []abiJSONArg
+	StateMutability string
+	Constant        bool
+	Payable         bool
+	Anonymous       bool
+}
+
+func abiArgTypeString(a abiJSONArg) string {
+	if !strings.HasPrefix(a.Type, "tuple") {
+		return a.Type
+	}
+	var parts []string
+	for _, c := range a.Components {
+		parts = append(parts, abiArgTypeString(c))
+	}
+	return "(" + strings.Join(parts, ",") + ")" + strings.TrimPrefix(a.Type, "tuple")
+}
+
+func readerString(fr *frame, v value) (string, bool) {
+	it, ok := v.(iface)
+	if !ok || it.v == nil {
+		return "", false
+	}
+	ptr, ok := it.v.(*value)
+	if !ok || ptr == nil {
+		return "", false
+	}
+	st, ok := (*ptr).(structure)
+	if !ok || len(st) == 0 {
+		return "", false
+	}
+	switch s := st[0].(type) {
+	case string:
+		return s, true
+	case []value: // bytes.Reader
+		b := make([]byte, len(s))
+		for i, c := range s {
+			n, ok := c.(uint64)
+			if !ok {
+				return "", false
+			}
+			b[i] = byte(n)
+		}
+		return string(b), true
+	}
+	return "", false
+}
+
+func registerABIJSON(e *Engine) {
+	mkArgs := func(fr *frame, in []abiJSONArg) []value {
+		at := e.namedType(abiPkg, "Argument")
+		tt := e.namedType(abiPkg, "Type")
+		out := make([]value, 0, len(in))
+		for _, a := range in {
+			s := zero(at).(structure)
+			s[fieldIndex(at, "Name")] = a.Name
+			ty := zero(tt).(structure)
+			ty[fieldIndex(tt, "stringKind")] = abiArgTypeString(a)
+			s[fieldIndex(at, "Type")] = ty
+			s[fieldIndex(at, "Indexed")] = a.Indexed
+			out = append(out, s)
+		}
+		return out
+	}
+	sigOf := func(in []abiJSONArg) string {
+		var parts []string
+		for _, a := range in {
+			parts = append(parts, abiArgTypeString(a))
+		}
+		return strings.Join(parts, ",")
+	}
+	e.reg(abiPkg+".JSON", func(fr *frame, args []value) value {
+		abiT := e.namedType(abiPkg, "ABI")
+		mt := e.namedType(abiPkg, "Method")
+		et := e.namedType(abiPkg, "Event")
+		ert := e.namedType(abiPkg, "Error")
+		res := zero(abiT).(structure)
+		doc, ok := readerString(fr, args[0])
+		if !ok {
+			abort("unmodelled", "abi.JSON of a symbolic or unsupported reader")
+		}
+		var fields []abiJSONField
+		if err := json.Unmarshal([]byte(doc), &fields); err != nil {
+			return tuple{res, errValue(fr, "%s", err.Error())}
+		}
+		strT := types.Typ[types.String]
+		methods := &gomap{keyType: strT, idx: map[string]int{}}
+		events := &gomap{keyType: strT, idx: map[string]int{}}
+		errs := &gomap{keyType: strT, idx: map[string]int{}}
+		mkMethod := func(name, raw string, kind int64, f abiJSONField) structure {
+			s := zero(mt).(structure)
+			s[fieldIndex(mt, "Name")] = name
+			s[fieldIndex(mt, "RawName")] = raw
+			s[fieldIndex(mt, "Type")] = kind
+			s[fieldIndex(mt, "StateMutability")] = f.StateMutability
+			s[fieldIndex(mt, "Constant")] = f.Constant
+			s[fieldIndex(mt, "Payable")] = f.Payable
+			s[fieldIndex(mt, "Inputs")] = mkArgs(fr, f.Inputs)
+			s[fieldIndex(mt, "Outputs")] = mkArgs(fr, f.Outputs)
+			sig := raw + "(" + sigOf(f.Inputs) + ")"
+			s[fieldIndex(mt, "Sig")] = sig
+			s[fieldIndex(mt, "ID")] = bytesToCells(keccak256([]byte(sig))[:4])
+			return s
+		}
+		resolve := func(m *gomap, raw string) string {
+			name := raw
+			for i := 0; ; i++ {
+				if _, taken := m.idx[name]; !taken {
+					return name
+				}
+				name = fmt.Sprintf("%s%d", raw, i)
+			}
+		}
+		for _, f := range fields {
+			switch f.Type {
+			case "constructor":
+				res[fieldIndex(abiT, "Constructor")] = mkMethod("", "", 1, f)
+			case "function":
+				name := resolve(methods, f.Name)
+				methods.insert(fr, name, mkMethod(name, f.Name, 0, f))
+			case "fallback":
+				res[fieldIndex(abiT, "Fallback")] = mkMethod("", "", 2, f)
+			case "receive":
+				res[fieldIndex(abiT, "Receive")] = mkMethod("", "", 3, f)
+			case "event":
+				name := resolve(events, f.Name)
+				s := zero(et).(structure)
+				s[fieldIndex(et, "Name")] = name
+				s[fieldIndex(et, "RawName")] = f.Name
+				s[fieldIndex(et, "Anonymous")] = f.Anonymous
+				s[fieldIndex(et, "Inputs")] = mkArgs(fr, f.Inputs)
+				sig := f.Name + "(" + sigOf(f.Inputs) + ")"
+				s[fieldIndex(et, "Sig")] = sig
+				s[fieldIndex(et, "ID")] = array(bytesToCells(keccak256([]byte(sig))))
+				events.insert(fr, name, s)
+			case "error":
+				s := zero(ert).(structure)
+				s[fieldIndex(ert, "Name")] = f.Name
+				s[fieldIndex(ert, "Inputs")] = mkArgs(fr, f.Inputs)
+				sig := f.Name + "(" + sigOf(f.Inputs) + ")"
+				s[fieldIndex(ert, "Sig")] = sig
+				s[fieldIndex(ert, "ID")] = array(bytesToCells(keccak256([]byte(sig))))
+				errs.insert(fr, f.Name, s)
+			default:
+				return tuple{res, errValue(fr, "abi: could not recognize type %v of field %v", f.Type, f.Name)}
+			}
+		}
+		res[fieldIndex(abiT, "Methods")] = methods
+		res[fieldIndex(abiT, "Events")] = events
+		res[fieldIndex(abiT, "Errors")] = errs
+		return tuple{res, nilErr()}
+	})
+	packVals := func(fr *frame, sig string, vals []value) []value {
+		// canonical input that went through Unpack packs back to itself
+		if len(vals) == 1 {
+			if it, ok := vals[0].(iface); ok {
+				if raw, ok := it.v.(abiRaw); ok {
+					return append([]value(nil), raw.cells...)
+				}
+			}
+		}
+		memo := map[*value]*value{}
+		snap := make(structure, 0, len(vals)+1)
+		snap = append(snap, sig)
+		for _, v := range vals {
+			snap = append(snap, deepCopy(v, memo))
+		}
+		return []value{blobByte{kind: "abi", v: snap}}
+	}
+	methodSig := func(m structure) (string, []value, []value) {
+		mt := e.namedType(abiPkg, "Method")
+		sig, _ := m[fieldIndex(mt, "Sig")].(string)
+		id, _ := m[fieldIndex(mt, "ID")].([]value)
+		inputs, _ := m[fieldIndex(mt, "Inputs")].([]value)
+		return sig, id, inputs
+	}
+	e.reg("("+abiPkg+".ABI).Pack", func(fr *frame, args []value) value {
+		abiT := e.namedType(abiPkg, "ABI")
+		a := args[0].(structure)
+		name, ok := args[1].(string)
+		if !ok {
+			abort("unmodelled", "ABI.Pack with a symbolic method name")
+		}
+		vals, _ := args[2].([]value)
+		if name == "" {
+			cons := a[fieldIndex(abiT, "Constructor")].(structure)
+			sig, _, inputs := methodSig(cons)
+			if len(vals) == 1 {
+				if it, ok := vals[0].(iface); ok {
+					if _, ok := it.v.(abiRaw); ok {
+						return tuple{packVals(fr, sig, vals), nilErr()}
+					}
+				}
+			}
+			if len(vals) != len(inputs) {
+				return tuple{[]value(nil), errValue(fr, "argument count mismatch: got %d for %d", len(vals), len(inputs))}
+			}
+			return tuple{packVals(fr, sig, vals), nilErr()}
+		}
+		methods, _ := a[fieldIndex(abiT, "Methods")].(*gomap)
+		if methods == nil {
+			return tuple{[]value(nil), errValue(fr, "method '%s' not found", name)}
+		}
+		mv, found := methods.lookup(fr, name)
+		if !found {
+			return tuple{[]value(nil), errValue(fr, "method '%s' not found", name)}
+		}
+		sig, id, inputs := methodSig(mv.(structure))
+		if len(vals) != len(inputs) {
+			return tuple{[]value(nil), errValue(fr, "argument count mismatch: got %d for %d", len(vals), len(inputs))}
+		}
+		out := append([]value(nil), id...)
+		out = append(out, packVals(fr, sig, vals)...)
+		return tuple{out, nilErr()}
+	})
+	e.reg("("+abiPkg+".Arguments).Unpack", func(fr *frame, args []value) value {
+		data, _ := args[1].([]value)
+		arguments, _ := args[0].([]value)
+		if len(data) == 0 && len(arguments) != 0 {
+			return tuple{[]value(nil), errValue(fr, "abi: attempting to unmarshal an empty string while arguments are expected")}
+		}
+		if len(arguments) == 0 {
+			return tuple{[]value{}, nilErr()}
+		}
+		// stated assumption: the harness supplies canonical (decodable) input
+		return tuple{[]value{iface{t: abiRawType, v: abiRaw{cells: append([]value(nil), data...)}}}, nilErr()}
+	})
+}
+
+var abiRawType = types.NewNamed(types.NewTypeName(0, nil, "abiRaw", nil), types.NewStruct(nil, nil), nil)
